@@ -290,6 +290,16 @@ func (x *Exec) atLoopHead(st *State, f *Frame, li *LoopInfo) bool {
 				if s, ok := in.(*ssa.Store); ok && s.Addr == a {
 					if t, ok := st.cells[cell].(*Term); ok {
 						st.Assume(Le(IntLit(-1), t))
+						// ... and never passes the length captured before the loop: `if index+1 < n`
+						if bo, ok := s.Val.(*ssa.BinOp); ok && bo.Op == token.ADD {
+							for _, in2 := range li.head.Instrs {
+								if cmp, ok := in2.(*ssa.BinOp); ok && cmp.Op == token.LSS && cmp.X == bo {
+									if n, ok := f.regs[cmp.Y].(*Term); ok {
+										st.Assume(Le(Add(t, IntLit(1)), n))
+									}
+								}
+							}
+						}
 					}
 				}
 			}
@@ -359,6 +369,7 @@ func (x *Exec) havocCell(st *State, c *Cell) {
 
 func (x *Exec) havocLoop(st *State, f *Frame, li *LoopInfo) {
 	heapNames := map[string]bool{}
+	loopAlloc := st.allocCtr
 	cells := map[*Cell]bool{}
 	dyn := false
 	allocates := false
@@ -383,14 +394,31 @@ func (x *Exec) havocLoop(st *State, f *Frame, li *LoopInfo) {
 			switch in := in.(type) {
 			case *ssa.Store:
 				markRoot(rootOf(in.Addr))
+				_, rootIsAlloc := rootOf(in.Addr).(*ssa.Alloc)
+				if al, ok := rootOf(in.Addr).(*ssa.Alloc); ok && !li.body[al.Block()] {
+					rootIsAlloc = false // allocated before the loop: an existing object from the loop's point of view
+				}
 				for _, n := range x.heapTargets(in.Addr) {
-					heapNames[n] = true
+					mergeEff(heapNames, n, !rootIsAlloc)
 				}
 			case *ssa.MapUpdate:
 				mt := in.Map.Type().Underlying().(*types.Map)
 				d, v := x.reg.MapArrays(x.reg.SortOf(mt.Key()), x.reg.SortOf(mt.Elem()))
 				heapNames[d], heapNames[v] = true, true
-			case *ssa.Alloc, *ssa.MakeMap, *ssa.MakeSlice, *ssa.MakeClosure:
+			case *ssa.Alloc:
+				allocates = true
+				if !allocIsCell(in) {
+					for _, n := range x.arraysOfType(in.Type().Underlying().(*types.Pointer).Elem()) {
+						mergeEff(heapNames, n, false)
+					}
+				}
+			case *ssa.MakeMap:
+				allocates = true
+				mt := in.Type().Underlying().(*types.Map)
+				d, v := x.reg.MapArrays(x.reg.SortOf(mt.Key()), x.reg.SortOf(mt.Elem()))
+				mergeEff(heapNames, d, false)
+				mergeEff(heapNames, v, false)
+			case *ssa.MakeSlice, *ssa.MakeClosure:
 				allocates = true
 			case *ssa.Next:
 				if it, ok := f.regs[in.Iter].(*Iter); ok {
@@ -399,8 +427,8 @@ func (x *Exec) havocLoop(st *State, f *Frame, li *LoopInfo) {
 			case ssa.CallInstruction:
 				c := in.Common()
 				allocates = true
-				for n := range x.callEffects(c, f.fn) {
-					heapNames[n] = true
+				for n, full := range x.callEffects(c, f.fn) {
+					mergeEff(heapNames, n, full)
 				}
 				if !c.IsInvoke() && c.StaticCallee() == nil {
 					if _, isB := c.Value.(*ssa.Builtin); !isB {
@@ -423,8 +451,8 @@ func (x *Exec) havocLoop(st *State, f *Frame, li *LoopInfo) {
 					continue
 				}
 				anon := mc.Fn.(*ssa.Function)
-				for n := range x.effectsOf(anon) {
-					heapNames[n] = true
+				for n, full := range x.effectsOf(anon) {
+					mergeEff(heapNames, n, full)
 				}
 				for _, ab := range anon.Blocks {
 					for _, ain := range ab.Instrs {
@@ -453,14 +481,14 @@ func (x *Exec) havocLoop(st *State, f *Frame, li *LoopInfo) {
 	for c := range cells {
 		x.havocCell(st, c)
 	}
-	for n := range heapNames {
+	for n, full := range heapNames {
 		switch n {
 		case "$trace":
 			x.havocTrace(st)
 		case "$slice":
 			x.unsupported(st, x.blockPos(li.head), "loop writes slice elements in place")
 		default:
-			x.heapHavoc(st, n)
+			x.heapHavoc(st, n, full, loopAlloc)
 		}
 	}
 	if allocates {
